@@ -183,14 +183,14 @@ contract(B + 'nary_expressions.ConditionalSum.__init__', P, types={'list_of_term
 # LogLogit.get_value is under contract in contracts/c05_logit.py (kernel over the node's own dictionaries); the
 # constructor copies the dictionaries of the caller: the value of the new node is the kernel over the ARGUMENTS.
 _CH = 'int(c05c_num(choice))'
-_K = 'c05c_key(util, q)'
-_SAME = 'forall(lambda q: c05c_key(util, q) in av, 0, len(util))'
+_K = 'keys_of(util)[q]'
+_SAME = 'forall(lambda q: keys_of(util)[q] in av, 0, len(util))'
 _T_AV = (f"ite(c05c_val(typed(av, 'dict[int, Expression]')[{_K}]) != 0.0, "
          f"app('numpy.exp', c05c_val(util[{_K}]) - c05c_val(util[{_CH}])), 0.0)")
 _T_FULL = f"app('numpy.exp', c05c_val(util[{_K}]) - c05c_val(util[{_CH}]))"
 # pointwise agreement of the kernel terms over the node's own dictionaries (contract of LogLogit.get_value) and over the
 # constructor arguments: proved first (cut), then the sum-congruence lemma closes the equality of the two sums
-_F_KEY = 'keys_of(NODE.util)[q]'   # the shape used by the contract of LogLogit.get_value
+_F_KEY = 'keys_of(NODE.util)[q]'
 _F_CH = 'int(NODE.choice.get_value())'
 _F_AV = (f"ite(NODE.av[{_F_KEY}].get_value() != 0.0, "
          f"app('numpy.exp', NODE.util[{_F_KEY}].get_value() - NODE.util[{_F_CH}].get_value()), 0.0)")
@@ -212,16 +212,16 @@ LOGLOGIT_ENSURES = {
                               f"{_S_NODE} == sum_range(lambda q: {_T_FULL}, 0, len(util)))) and "
                               f"implies({_A_FULL}, c05c_val(NODE) == -app('numpy.log', sum_range(lambda q: {_T_FULL}, 0, len(util))))",
 }
-_UTIL_COPIED = ('len(self.util) == len(util) and forall(lambda q: c05c_key(self.util, q) == c05c_key(util, q) and '
-                'self.util[c05c_key(util, q)] is util[c05c_key(util, q)], 0, len(util)) and '
+_UTIL_COPIED = ('len(self.util) == len(util) and forall(lambda q: keys_of(self.util)[q] == keys_of(util)[q] and '
+                'self.util[keys_of(util)[q]] is util[keys_of(util)[q]], 0, len(util)) and '
                 "forall(lambda x: (x in self.util) == (x in util), ty='int')")
 _AVD = "typed(av, 'dict[int, Expression]')"
 _AV_COPIED = (f"implies(av is not None, len(self.av) == len({_AVD}) and "
-              f"forall(lambda q: c05c_key(self.av, q) == c05c_key({_AVD}, q) and "
-              f"self.av[c05c_key({_AVD}, q)] is {_AVD}[c05c_key({_AVD}, q)], 0, len({_AVD})) and "
+              f"forall(lambda q: keys_of(self.av)[q] == keys_of({_AVD})[q] and "
+              f"self.av[keys_of({_AVD})[q]] is {_AVD}[keys_of({_AVD})[q]], 0, len({_AVD})) and "
               f"forall(lambda x: (x in self.av) == (x in {_AVD}), ty='int'))")
-_AV_ONES = ('implies(av is None, len(self.av) == len(util) and forall(lambda q: c05c_key(self.av, q) == c05c_key(util, q) and '
-            "c05c_val(self.av[c05c_key(util, q)]) == 1, 0, len(util)) and forall(lambda x: (x in self.av) == (x in util), ty='int'))")
+_AV_ONES = ('implies(av is None, len(self.av) == len(util) and forall(lambda q: keys_of(self.av)[q] == keys_of(util)[q] and '
+            "c05c_val(self.av[keys_of(util)[q]]) == 1, 0, len(util)) and forall(lambda x: (x in self.av) == (x in util), ty='int'))")
 _CHOICE = 'c05c_val(self.choice) == c05c_num(choice)'
 _KEPT = ("len(util) == old(len(util)) and implies(av is not None, len(typed(av, 'dict[int, Expression]')) == old(len(typed(av, 'dict[int, Expression]'))))")
 _UTIL_BY_KEY = "forall(lambda x: implies(x in util, self.util[x] is util[x]), ty='int')"
@@ -230,10 +230,10 @@ _AV_ONES_BY_KEY = "implies(av is None, forall(lambda x: implies(x in util, c05c_
 _AV_DOM = (f"implies(av is not None, forall(lambda x: (x in self.av) == (x in {_AVD}), ty='int')) and "
            "implies(av is None, forall(lambda x: (x in self.av) == (x in util), ty='int'))")
 # the same facts in the shape of the kernel terms (one instantiation per position)
-_UTIL_POS = 'forall(lambda q: self.util[c05c_key(self.util, q)] is util[c05c_key(util, q)], 0, len(util))'
-_AV_POS = (f"implies(av is not None, forall(lambda q: implies(c05c_key(util, q) in {_AVD}, "
-           f"self.av[c05c_key(self.util, q)] is {_AVD}[c05c_key(util, q)]), 0, len(util)))")
-_AV_ONES_POS = 'implies(av is None, forall(lambda q: c05c_val(self.av[c05c_key(self.util, q)]) == 1, 0, len(util)))'
+_UTIL_POS = 'forall(lambda q: self.util[keys_of(self.util)[q]] is util[keys_of(util)[q]], 0, len(util))'
+_AV_POS = (f"implies(av is not None, forall(lambda q: implies(keys_of(util)[q] in {_AVD}, "
+           f"self.av[keys_of(self.util)[q]] is {_AVD}[keys_of(util)[q]]), 0, len(util)))")
+_AV_ONES_POS = 'implies(av is None, forall(lambda q: c05c_val(self.av[keys_of(self.util)[q]]) == 1, 0, len(util)))'
 _INV = {'util_pos': _UTIL_POS, 'av_pos': _AV_POS, 'av_ones_pos': _AV_ONES_POS, 'util_copied': _UTIL_COPIED, 'av_copied': _AV_COPIED, 'av_ones': _AV_ONES, 'choice': _CHOICE,
         'util_by_key': _UTIL_BY_KEY, 'av_by_key': _AV_BY_KEY, 'av_ones_by_key': _AV_ONES_BY_KEY, 'av_dom': _AV_DOM}
 # what callers get: keys of util by position, values by key, domains (the positional facts about av stay loop invariants only)
